@@ -6,6 +6,8 @@ Line protocol of `model_C18` (answers of the Lean model of rten-simd's loops / l
 
 * `sched map <v> <n> …`, `sched iter <v> <n> …`, `sched apply <v> <u> <n> …`
     → `chunks=<active lanes per access, comma separated>` (or `panic`)
+* `fold <fold|foldn|unroll<u>|nunroll<u>> <v> <sum|min|max> <init> <xs>` → lanes of the final
+    accumulator of `Iter::fold` / `fold_n` (min;max) / `fold_unroll` / `fold_n_unroll`
 * `mask <v> <n> …`  → `first_n_mask` as a 0/1 string of `v` lanes
 * `bmask <v> <n> …` → the AVX-512 bit-loop mask as a 0/1 string of `v` bits
 * `writer <len> <op>…` with ops `v<k>` (write_vec, k lanes), `m<k>x<j>` (write_vecs), `s`
@@ -75,6 +77,38 @@ def parseWOp (s : String) : Option WOp :=
     | _ => none
   else none
 
+def foldOp : String → Option (Int → Int → Int)
+  | "sum" => some (laneAdd i32)
+  | "min" => some laneMin
+  | "max" => some laneMax
+  | _ => none
+
+def mmStep (a : Int × Int) (x : Int) : Int × Int := (laneMin a.1 x, laneMax a.2 x)
+def mmMerge (a b : Int × Int) : Int × Int := (laneMin a.1 b.1, laneMax a.2 b.2)
+def mmInit : Int × Int := (2147483647, -2147483648)
+
+def showPairs (v : Nat) (r : Nat → Int × Int) : String :=
+  showInts "," ((List.range v).map (fun j => (r j).1)) ++ ";" ++
+    showInts "," ((List.range v).map (fun j => (r j).2))
+
+/-- `fold <kind> <v> <op> <init> <xs>`: lanes of the final accumulator register. -/
+def handleFold (kind : String) (v : Nat) (op : String) (init : Int) (xs : List Int) : String :=
+  if kind == "foldn" then showPairs v (iterFold true mmStep 0 v xs (fun _ => mmInit))
+  else if kind.startsWith "nunroll" then
+    match (kind.drop 7).toString.toNat? with
+    | some u => showPairs v (foldUnroll mmStep mmMerge 0 v u xs (fun _ => mmInit))
+    | none => "bad-request"
+  else match foldOp op with
+    | none => "bad-request"
+    | some f =>
+      if kind == "fold" then
+        showInts "," ((List.range v).map (iterFold true f 0 v xs (fun _ => init)))
+      else if kind.startsWith "unroll" then
+        match (kind.drop 6).toString.toNat? with
+        | some u => showInts "," ((List.range v).map (foldUnroll f f 0 v u xs (fun _ => init)))
+        | none => "bad-request"
+      else "bad-request"
+
 def isKv (s : String) : Bool := (s.splitOn "=").length ≥ 2
 
 def handle (line : String) : String :=
@@ -93,6 +127,10 @@ def handle (line : String) : String :=
       match simdApply v u n with
       | some cs => showChunks cs
       | none => "panic"
+    | _, _, _ => "bad-request"
+  | ["fold", kind, v, op, init, xs] =>
+    match v.toNat?, init.toInt?, parseIntList "," (if xs == "e" then "" else xs) with
+    | some v, some init, some xs => handleFold kind v op init xs
     | _, _, _ => "bad-request"
   | ["mask", v, n] =>
     match v.toNat?, n.toNat? with
